@@ -10,6 +10,23 @@ HEX = "0123456789abcdefABCDEF"
 PATH_OK = set("abcdefghijklmnopqrstuvwxyzABCDEFGHIJKLMNOPQRSTUVWXYZ0123456789-_.~$&+,/:;=@!'()*[]")
 
 HOSTS = gen_repo.HOSTS + ["a.example.com:8443", "localhost"]
+# hosts whose authority spells a port out: the default port of one of the schemes (legal, a number of clients send it;
+# over the matching scheme AND over the other one), a port with a leading zero, no digits after the colon, IPv6
+# literals with and without port. The view shows the host as written; `URL.Hostname()` / `URL.Port()` are its parts.
+PORT_HOSTS = ["a.example.com:80", "a.example.com:443", "b.example.com:443", "example.org:80", "localhost:80",
+              "localhost:443", "A.Example.Com:443", "a.example.com:0443", "a.example.com:080", "a.example.com:",
+              "[::1]:443", "[::1]:80", "[::1]", "[2001:db8::1]:8080", "127.0.0.1:80", "a.example.com:65535"]
+# host matchers of rules that look at the port
+PORT_HOST_MATCHERS = [
+    {"type": "exact", "value": "a.example.com:443"}, {"type": "exact", "value": "a.example.com:80"},
+    {"type": "exact", "value": "a.example.com"}, {"type": "exact", "value": "localhost:80"},
+    {"type": "exact", "value": "[::1]:443"},
+    {"type": "glob", "value": "*.example.com:443"}, {"type": "glob", "value": "*.example.com:80"},
+    {"type": "glob", "value": "*.example.com"}, {"type": "glob", "value": "localhost:*"},
+    {"type": "regex", "value": ":443$"}, {"type": "regex", "value": ":80$"},
+    {"type": "regex", "value": "^a\\.example\\.com:80$"}, {"type": "regex", "value": "^\\[::1\\]"},
+    {"type": "regex", "value": "com$"},
+]
 METHODS = ["GET", "GET", "GET", "POST", "PUT", "DELETE", "HEAD", "PATCH"]
 HEADER_NAMES = ["X-Foo", "x-foo", "X-FOO", "Accept", "accept", "X-Bar-Baz", "x-bar-baz", "Authorization", "X_Under",
                 "x-a!b", "User-Agent", "X-Request-Id", "If-None-Match"]
@@ -39,7 +56,53 @@ RESPONDS = [
 ]
 CLIENT_UP_VALUES = ["mallory", "1", "a, b", "", "x y", "%41"]
 LITERALS = ["", "a", "b", "ab", "abc", "GET", "POST", "http", "https", "a b", "a/b", "1", "abc", "q", "a%2Fb", "v1",
-            "a.example.com", "/a/b", "a=b", "x", "zz"]
+            "a.example.com", "/a/b", "a=b", "x", "zz", "443", "80", "a.example.com:443", "::1"]
+
+# `serve.decision.buffer_limit` / `serve.proxy.buffer_limit` (bytes; the Envoy gRPC service uses the block of the
+# decision service). DEFAULT_LIMITS: what heimdall's configuration loader yields when the configuration says nothing
+# (documented: 4KB each) — measured on the tree under test at the start of a run (`set_default_limits`). A case without
+# `limits` runs with 0 / 0 (a configuration assembled by hand, as the unit tests do).
+DEFAULT_LIMITS = {"read": 4096, "write": 4096}
+
+
+def set_default_limits(measured):
+    """the defaults of the tree under test as reported by the harness (`op: defaults`)"""
+    if isinstance(measured, dict) and all(isinstance(measured.get(k), int) for k in ("read", "write")):
+        DEFAULT_LIMITS.update({"read": measured["read"], "write": measured["write"]})
+
+
+def gen_limits(rng):
+    """mostly the defaults; now and then no limits at all, small ones, large ones, read and write apart"""
+    r = rng.random()
+    if r < 0.62:
+        return dict(DEFAULT_LIMITS)
+    if r < 0.72:
+        return None
+    return dict(rng.choice([{"read": 1024, "write": 1024}, {"read": 512, "write": 8192},
+                            {"read": 16384, "write": 4096}, {"read": 65536, "write": 65536}]))
+
+
+def head_bytes(req):
+    """mirror of LReq.headLength: the bytes of the request line and the header block as the harness writes them"""
+    target = req["path"] + ("?" + req["query"] if req["query"] else "")
+    return (len(req["method"]) + 1 + len(target) + 11 + 6 + len(req["host"]) + 2
+            + sum(len(n) + 2 + len(v) + 2 for n, v in req["headers"]) + 2)
+
+
+def header_budget(limits):
+    """mirror of headerBudget: http.Server.MaxHeaderBytes = buffer_limit.read (0: 1 MiB) + 4096"""
+    return ((limits or {}).get("read") or 1 << 20) + 4096
+
+
+def split_host_port(hp):
+    """mirror of splitHostPort (net/url)"""
+    host, port = hp, ""
+    i = hp.rfind(":")
+    if i != -1 and all("0" <= ch <= "9" for ch in hp[i + 1:]):
+        host, port = hp[:i], hp[i + 1:]
+    if host.startswith("[") and host.endswith("]"):
+        host = host[1:-1]
+    return host, port
 
 
 def valid_path(p):
@@ -125,8 +188,8 @@ def gen_body(rng):
 LEVELS = ["trace", "trace", "trace", "debug", "debug", "info", "info", "warn", "error", "disabled", "disabled"]
 # the lengths every run covers for every kind of body: none, one byte, a few hundred bytes, a page, around 16 KiB (the
 # size of the buffers of bufio / io.Copy users and of a bounded dump), 64 KiB, and more than net/http drains after a
-# handler returned (256 KiB)
-SIZES = [0, 1, 300, 4096, 16383, 16384, 16385, 65536, 307200]
+# handler returned (256 KiB); 4096 / 4097: at and just above the default `buffer_limit.read` of the services
+SIZES = [0, 1, 300, 4096, 4097, 16383, 16384, 16385, 65536, 307200]
 SIZED_KINDS = ["json", "form", "yaml", "text", "json-bad"]
 FILL = "abcdefghijklmnopqrstuvwxyz0123456789ABCDEFGHIJKLMNOPQRSTUVWXYZ"
 BIG = 8192      # from here on a case reads the body in at most two templates (header size limits of the carriers)
@@ -189,6 +252,26 @@ def expand(case):
     if sz and "body" not in case["req"]:
         body, ct, dec = sized_body(sz["kind"], sz["size"], sz.get("off", 0))
         set_body(case, body, ct, dec, sized=sz)
+    if case.get("limits") == "default":
+        # the `buffer_limit` defaults of the tree under test (corpus files name them instead of spelling them out)
+        case["limits"] = dict(DEFAULT_LIMITS)
+    pad = case.get("req", {}).get("pad")
+    if pad and not any(h[0] == pad["name"] for h in case["req"]["headers"]):
+        # a header line that brings the head of the message to `budget + over` bytes (corpus files)
+        pad_head(case, pad["name"], pad["over"])
+    return case
+
+
+def pad_head(case, name, over):
+    """add the header line `name: aaa…` in front of the others so that the request line and the header block are
+    `over` bytes longer (shorter: negative) than what the HTTP based services read for them under the limits of the
+    case; None if that is not possible"""
+    req = case["req"]
+    n = header_budget(case.get("limits")) + over - head_bytes(req) - (len(name) + 4)
+    if n < 0:
+        return None
+    req["headers"].insert(0, [name, fill(n)])
+    req["pad"] = {"name": name, "over": over}
     return case
 
 
@@ -247,6 +330,10 @@ def sized_case(rng, kind, size, level):
     case = {"fam": "entryview", "sets": [{"src": "s1", "rules": [rule]}], "req": req, "dec": {},
             "spy": {"headers": ["Content-Type", "Host"], "cookies": []},
             "respond": rng.choice(RESPONDS), "log": level}
+    # mostly the default limits (4 KiB to read): most of these bodies are longer
+    lim = gen_limits(rng) if rng.random() < 0.3 else dict(DEFAULT_LIMITS)
+    if lim is not None:
+        case["limits"] = lim
     off = rng.randrange(len(FILL))
     body, ct, dec = sized_body(kind, size, off)
     return set_body(case, body, ct, dec, sized={"kind": kind, "size": size, "off": off})
@@ -278,7 +365,8 @@ def gen_probe(rng, cap_names, hdr_names, ck_names, cel=False):
         return {"k": "cookie", "a": rng.choice(ck_names)}
     if r < 0.72 and not cel:
         return {"k": "body", "a": ""}
-    return {"k": rng.choice(["method", "scheme", "host", "path", "path", "query"]), "a": ""}
+    return {"k": rng.choice(["method", "scheme", "host", "host", "hostname", "port", "port", "path", "path", "query"]),
+            "a": ""}
 
 
 def guess(rng, p, req):
@@ -292,6 +380,10 @@ def guess(rng, p, req):
         return "https" if req["tls"] else "http"
     if k == "host":
         return req["host"]
+    if k == "hostname":
+        return split_host_port(req["host"])[0]
+    if k == "port":
+        return split_host_port(req["host"])[1] if rng.random() < 0.7 else rng.choice(["", "80", "443"])
     if k == "query":
         return req["query"]
     if k == "header":
@@ -439,6 +531,9 @@ def gen_rule(rng, rid, exprs):
         r["methods"] = []
     if rng.random() < 0.75:
         r["hosts"] = []
+    if rng.random() < 0.12:
+        # host matchers that look at the port (any of the listed ones matches)
+        r["hosts"] = [dict(m) for m in rng.sample(PORT_HOST_MATCHERS, rng.choice([1, 1, 2, 3]))]
     if rng.random() < 0.8:
         r["scheme"] = ""
     # a methods list that allows nothing is a configuration error (the whole rule set is rejected): rare here
@@ -492,12 +587,18 @@ def gen_request(rng, rules, exprs, wellformed=True, raw=False):
     if pos and rng.random() < 0.7:
         method = rng.choice(pos)
     host = rng.choice(HOSTS)
+    if rng.random() < 0.22:
+        host = rng.choice(PORT_HOSTS)
     exact = [h["value"] for h in target["hosts"] if h["type"] == "exact"]
     if exact and rng.random() < 0.7:
         host = rng.choice(exact)
     tls = rng.random() < 0.3
     if target["scheme"] and rng.random() < 0.7:
         tls = target["scheme"] == "https"
+    if rng.random() < 0.1:
+        # the default port of the scheme of this very request, spelled out
+        host = split_host_port(host)[0] if ":" not in split_host_port(host)[0] else "[" + split_host_port(host)[0] + "]"
+        host += ":443" if tls else ":80"
     req = {"method": method, "tls": tls, "host": host, "path": path,
            "query": query, "headers": headers, "body": body, "envoy_body": rng.choice(["raw", "raw", "str"])}
     return req, dec
@@ -505,9 +606,9 @@ def gen_request(rng, rules, exprs, wellformed=True, raw=False):
 
 def gen_case(rng, dup_p=0.12, wellformed=True, raw=False, sized_p=0.08):
     """wellformed: a logical request the theorems cover; raw (with wellformed): its path contains octets that may not
-    stand in a path; not wellformed: outside the hypotheses (two Cookie lines, hop headers); sized_p: share of cases
-    whose body is one of `sized_body` with a random length (up to 300 KiB). Every case names the log level the
-    services run with."""
+    stand in a path; not wellformed: outside the hypotheses (two Cookie lines, hop headers, a head larger than the
+    services read); sized_p: share of cases whose body is one of `sized_body` with a random length (up to 300 KiB).
+    Every case names the log level the services run with and (most of them) their `buffer_limit` block."""
     exprs = gen_exprs(rng)
     rules = []
     for i in range(rng.choice([1, 2, 2, 3, 4])):
@@ -555,6 +656,9 @@ def gen_case(rng, dup_p=0.12, wellformed=True, raw=False, sized_p=0.08):
         case["default"] = {"pipe": gen_pipe(rng, [], hdr_names, ck_names, req, dup_p)}
     case["respond"] = rng.choice(RESPONDS)
     case["log"] = rng.choice(LEVELS)
+    lim = gen_limits(rng)
+    if lim is not None:
+        case["limits"] = lim
     if rng.random() < sized_p:
         kind, size = rng.choice(SIZED_KINDS), random_size(rng)
         off = rng.randrange(len(FILL))
@@ -563,6 +667,14 @@ def gen_case(rng, dup_p=0.12, wellformed=True, raw=False, sized_p=0.08):
         set_body(case, body, ct, dec, sized={"kind": kind, "size": size, "off": off})
         if size >= BIG:
             limit_body_probes(case)
+    # the head of the message (request line + header block) against what the HTTP based services read for it under
+    # `buffer_limit.read`: a head that fills the budget to the last byte (inside the hypotheses), and — outside them,
+    # only implementation = model is compared — one that exceeds it (431 from net/http, the Envoy service decides)
+    if lim is not None and lim["read"] <= 16384:
+        if not wellformed and rng.random() < 0.25:
+            pad_head(case, "X-Pad", rng.choice([1, 1, 2, 64, 5000]))
+        elif rng.random() < 0.03:
+            pad_head(case, "X-Pad", rng.choice([0, 0, -1, -2, -100]))
     return case
 
 
